@@ -8,14 +8,29 @@ from pygen import write_pkg
 from runner import Opts, run_many
 
 
-def tree_files(files) -> dict:
-    out = {"__init__.py": ""}
+def dirs_of(files) -> list:
+    ds = set()
     for f in files:
         p = f["path"]
         for j in range(1, len(p) + 1):
-            out["/".join(p[:j]) + "/__init__.py"] = ""
+            ds.add(tuple(p[:j]))
+    return sorted(ds)
+
+
+def tree_files(files, root: str) -> dict:
+    """Every directory is a package whose __init__ declares something; the root module keepmod imports every package, so that the
+    type checker loads all of them (a file that is imported is still a file located in its directory)."""
+    out = {"__init__.py": ""}
+    for d in dirs_of(files):
+        tag = "_".join(d)
+        out["/".join(d) + "/__init__.py"] = f"def init_fn_{tag}() -> int:\n    ...\n"
+    for f in files:
+        p = f["path"]
         tag = "_".join([*p, f["stem"]]).replace(".", "_")
-        out["/".join([*p, f["stem"] + ".py"])] = f"def fn_{tag}(a: int) -> int:\n    ...\n\n\nclass Cl_{tag}:\n    pass\n"
+        text = f"def fn_{tag}(a: int) -> int:\n    ...\n\n\nclass Cl_{tag}:\n    pass\n"
+        if not p and f["stem"] == "keepmod":
+            text = "".join(f"import {'.'.join([root, *d])}\n" for d in dirs_of(files)) + "\n\n" + text
+        out["/".join([*p, f["stem"] + ".py"])] = text
     return out
 
 
@@ -29,7 +44,7 @@ def main(v: Verdict) -> None:
     jobs, meta = [], []
     for k, t in enumerate(trees):
         root = f"dirpk{k:03d}"
-        d = write_pkg(tree_files(t["files"]), root)
+        d = write_pkg(tree_files(t["files"], root), root)
         for tr in (False, True):
             jobs.append({"src": d, "opts": Opts(testrun=tr), "timeout": 600})
             meta.append((k, root, tr))
@@ -64,6 +79,16 @@ def main(v: Verdict) -> None:
                 o["stub" + key] = dotted in by_mod
                 o["digest" + key] = by_mod.get(dotted, "")
             obs.append({"id": f"tree{k}:{mid}", "obs": o})
+        # the __init__ files of the directories: they never get a stub of their own, only the API JSON can show them
+        for dpath in dirs_of(t["files"]):
+            mid = "/".join([root, *dpath])
+            decl = f"{mid}/init_fn_{'_'.join(dpath)}"
+            o = {"path": list(dpath), "stem": "__init__"}
+            for tr, key in ((False, "Off"), (True, "On")):
+                ids, _ = facts[tr]
+                seen = any(i == mid or i == decl or i.startswith(decl + "/") for i in ids)
+                o["json" + key], o["stub" + key], o["digest" + key] = seen, seen, ""
+            obs.append({"id": f"tree{k}:{mid}/__init__", "obs": o})
     bad = judge(v, "C15_Trace", obs)
     v.add_bad(bad)
     v.samples = obs[:2] + obs[-2:]
